@@ -1,11 +1,148 @@
-(* C12/Proofs.v — the checker model against the reference semantics: rule level. *)
-From Coq Require Import List NArith Bool Lia.
+(* C12/Proofs.v — the checker model against the reference semantics (PolicyRef), on the common fragment. *)
+From Coq Require Import List NArith Bool Lia Btauto.
 From Verif.Common Require Import Packet PolicyRef.
 From Verif.C11 Require Import Bpf.
-From Verif.C11 Require Spec.
+From Verif.C11 Require Spec ProofsSets.
 From Verif.C12 Require Import Model Spec.
 Import ListNotations.
 Open Scope N_scope.
 
 Lemma ok_agree_true : forall r a b c d, ok_agree r a b c d = true -> a = r /\ b = r /\ c = r /\ d = r.
 Proof. intros r a b c d H. destruct r, a, b, c, d; simpl in H; try discriminate; repeat split. Qed.
+
+Lemma forallb_ext_in : forall {A} (f g : A -> bool) l, (forall a, In a l -> f a = g a) -> forallb f l = forallb g l.
+Proof.
+  intros A f g l. induction l as [|a l IH]; intro H; [reflexivity|].
+  simpl. rewrite (H a (or_introl eq_refl)), IH; [reflexivity|]. intros b Hb. apply H. right. exact Hb.
+Qed.
+
+(* ------------------------------------------------------------------ IP sets: store lookups = reference oracle *)
+Section Sets.
+Variables (kv : kvariant) (v : ipver) (tbl : sets_table).
+Hypothesis Hstore : store_in_fragment kv v tbl = true.
+Let w := addr_width v.
+Let s := ref_sets v tbl.
+
+Lemma entries_ok : forall id ens, assoc id tbl = Some ens -> forallb (entry_in_fragment kv w) ens = true.
+Proof.
+  intros id ens H. apply C11.ProofsSets.assoc_in in H.
+  unfold store_in_fragment in Hstore. rewrite forallb_forall in Hstore. exact (Hstore (id, ens) H).
+Qed.
+
+Lemma has_ip_ref : forall id ens a, assoc id tbl = Some ens -> store_has_ip kv w ens a = s id (MemIP a).
+Proof.
+  intros id ens a H. unfold s, ref_sets, C11.Spec.ref_sets. rewrite H. fold w.
+  pose proof (entries_ok id ens H) as Hok. rewrite forallb_forall in Hok.
+  unfold store_has_ip. apply C11.ProofsSets.existsb_ext_in. intros en Hin. specialize (Hok en Hin).
+  destruct en as [c l|a' pr po]; [|reflexivity].
+  unfold net_hit. simpl in Hok. rewrite Hok. apply andb_true_r.
+Qed.
+
+Lemma has_ipport_ref : forall id ens a pr po, assoc id tbl = Some ens ->
+  store_has_ipport ens a pr po = s id (MemIPPort a pr po).
+Proof.
+  intros id ens a pr po H. unfold s, ref_sets, C11.Spec.ref_sets. rewrite H.
+  pose proof (entries_ok id ens H) as Hok. rewrite forallb_forall in Hok.
+  unfold store_has_ipport.
+  destruct (N.eqb pr 6 || N.eqb pr 17) eqn:Ep; simpl.
+  - apply C11.ProofsSets.existsb_ext_in. intros en Hin. destruct en; reflexivity.
+  - symmetry. apply not_true_is_false. intro Hex. apply existsb_exists in Hex. destruct Hex as [en [Hin Hen]].
+    specialize (Hok en Hin). destruct en as [c l|a' pr' po']; [discriminate|].
+    simpl in Hok. apply andb_true_iff in Hen. destruct Hen as [Hen _]. apply andb_true_iff in Hen. destruct Hen as [_ Hpr].
+    apply N.eqb_eq in Hpr. subst pr'. rewrite Hok in Ep. discriminate.
+Qed.
+
+Lemma sets_all_ref : forall ids (has : list set_entry -> bool) (m : member),
+  forallb (set_present tbl) ids = true ->
+  (forall id ens, assoc id tbl = Some ens -> has ens = s id m) ->
+  chk_sets_all tbl ids has = forallb (fun id => s id m) ids.
+Proof.
+  intros ids has m Hp Hh. unfold chk_sets_all. apply forallb_ext_in. intros id Hin.
+  rewrite forallb_forall in Hp. specialize (Hp id Hin). unfold set_present in Hp.
+  destruct (assoc id tbl) as [ens|] eqn:E; [|discriminate]. apply (Hh id ens E).
+Qed.
+
+Lemma sets_none_ref : forall ids (has : list set_entry -> bool) (m : member),
+  forallb (set_present tbl) ids = true ->
+  (forall id ens, assoc id tbl = Some ens -> has ens = s id m) ->
+  chk_sets_none tbl ids has = negb (existsb (fun id => s id m) ids).
+Proof.
+  intros ids has m Hp Hh. unfold chk_sets_none.
+  induction ids as [|id ids IH]; [reflexivity|].
+  simpl in Hp. apply andb_true_iff in Hp. destruct Hp as [Hp1 Hp2].
+  simpl. rewrite negb_orb, <- (IH Hp2). unfold set_present in Hp1.
+  destruct (assoc id tbl) as [ens|] eqn:E; [|discriminate]. rewrite (Hh id ens E). reflexivity.
+Qed.
+End Sets.
+
+(* ------------------------------------------------------------------ one rule *)
+Lemma nets_ok_version : forall nets v x, nets_ok nets v x = true -> field_has_version nets v = true.
+Proof.
+  intros nets v x H. unfold nets_ok in H. unfold field_has_version.
+  destruct nets as [|c cs]; [reflexivity|]. simpl is_nil in *. rewrite orb_false_l in *.
+  apply existsb_exists in H. destruct H as [c' [Hin Hc]]. apply existsb_exists. exists c'. split; [exact Hin|].
+  unfold in_cidr in Hc. apply andb_true_iff in Hc. tauto.
+Qed.
+
+Lemma fhv_nets_ok : forall nets v x, field_has_version nets v && nets_ok nets v x = nets_ok nets v x.
+Proof.
+  intros. destruct (nets_ok nets v x) eqn:E; [|apply andb_false_r].
+  rewrite (nets_ok_version _ _ _ E). reflexivity.
+Qed.
+
+Lemma forallb_app_true : forall {A} (f : A -> bool) l1 l2, forallb f (l1 ++ l2) = true -> forallb f l1 = true /\ forallb f l2 = true.
+Proof. intros A f l1 l2 H. rewrite forallb_app in H. apply andb_true_iff in H. exact H. Qed.
+
+Lemma is_nil_true : forall {A} (l : list A), is_nil l = true -> l = [].
+Proof. intros A [|x l] H; [reflexivity|discriminate]. Qed.
+
+Lemma nil_or_not_in : forall rs x, is_nil rs || negb (in_ranges rs x) = negb (in_ranges rs x).
+Proof. intros [|r rs] x; reflexivity. Qed.
+
+Lemma rule_match_ref : forall kv v tbl r p,
+  store_in_fragment kv v tbl = true -> rule_in_fragment kv v tbl r = true ->
+  packet_in_fragment p = true -> pk_ver p = v ->
+  chk_match kv tbl r p = rule_matches (ref_sets v tbl) r p.
+Proof.
+  intros kv v tbl r p Hst Hr Hp Hv.
+  unfold rule_in_fragment in Hr. repeat rewrite andb_true_iff in Hr.
+  destruct Hr as [[[[[[[[Hic Hn1] Hn2] Hn3] Hn4] Hiv] Hf1] Hf2] Hs].
+  destruct (r_icmp r) eqn:Ei; [discriminate|]. destruct (r_not_icmp r) eqn:Eni; [discriminate|].
+  apply is_nil_true in Hn1, Hn2, Hn3, Hn4.
+  unfold rule_sets in Hs.
+  apply forallb_app_true in Hs. destruct Hs as [Hs1 Hs]. apply forallb_app_true in Hs. destruct Hs as [Hs2 Hs].
+  apply forallb_app_true in Hs. destruct Hs as [Hs3 Hs]. apply forallb_app_true in Hs. destruct Hs as [Hs4 Hs5].
+  unfold chk_match, rule_matches. rewrite Hv.
+  rewrite (sets_all_ref v tbl _ _ (src_member p) Hs1) by (intros; apply (has_ip_ref kv v tbl Hst); assumption).
+  rewrite (sets_all_ref v tbl _ _ (dst_member p) Hs2) by (intros; apply (has_ip_ref kv v tbl Hst); assumption).
+  rewrite (sets_none_ref v tbl _ _ (src_member p) Hs3) by (intros; apply (has_ip_ref kv v tbl Hst); assumption).
+  rewrite (sets_none_ref v tbl _ _ (dst_member p) Hs4) by (intros; apply (has_ip_ref kv v tbl Hst); assumption).
+  rewrite (sets_all_ref v tbl _ _ (dst_port_member p) Hs5) by (intros; apply (has_ipport_ref kv v tbl Hst); assumption).
+  unfold rule_version_ok, ports_ok, ports_hit, chk_ports_pos, chk_ports_neg, chk_nets_pos, chk_nets_neg, chk_proto, chk_ipver.
+  rewrite Ei, Eni, Hn1, Hn2, Hn3, Hn4, Hf1, Hf2. simpl opt_ok. simpl existsb. simpl (is_nil []).
+  unfold packet_in_fragment in Hp. rewrite Hp.
+  fold (nets_ok (r_src_nets r) v (pk_src p)). fold (nets_ok (r_dst_nets r) v (pk_dst p)).
+  assert (Hipv : (if kv_ipver kv then opt_ok (r_ipver r) (ipver_eqb v) else true) = opt_ok (r_ipver r) (ipver_eqb v)).
+  { destruct (kv_ipver kv); [reflexivity|]. simpl in Hiv. destruct (r_ipver r); [discriminate|reflexivity]. }
+  rewrite Hipv.
+  rewrite <- (fhv_nets_ok (r_src_nets r) v (pk_src p)), <- (fhv_nets_ok (r_dst_nets r) v (pk_dst p)).
+  rewrite !orb_false_r, !andb_true_r, !nil_or_not_in.
+  (* both sides are conjunctions of the same atoms *)
+  generalize (forallb (fun id => ref_sets v tbl id (src_member p)) (r_src_ipsets r)).
+  generalize (forallb (fun id => ref_sets v tbl id (dst_member p)) (r_dst_ipsets r)).
+  generalize (existsb (fun id => ref_sets v tbl id (src_member p)) (r_not_src_ipsets r)).
+  generalize (existsb (fun id => ref_sets v tbl id (dst_member p)) (r_not_dst_ipsets r)).
+  generalize (forallb (fun id => ref_sets v tbl id (dst_port_member p)) (r_dst_ipport_sets r)).
+  generalize (opt_ok (r_ipver r) (ipver_eqb v)).
+  generalize (field_has_version (r_src_nets r) v) (field_has_version (r_dst_nets r) v).
+  generalize (nets_ok (r_src_nets r) v (pk_src p)) (nets_ok (r_dst_nets r) v (pk_dst p)).
+  generalize (existsb (fun c => in_cidr c v (pk_src p)) (r_not_src_nets r)).
+  generalize (existsb (fun c => in_cidr c v (pk_dst p)) (r_not_dst_nets r)).
+  generalize (opt_ok (r_proto r) (N.eqb (pk_proto p))).
+  generalize (opt_ok (r_not_proto r) (fun n => negb (N.eqb (pk_proto p) n))).
+  generalize (is_nil (r_src_ports r)) (in_ranges (r_src_ports r) (pk_sport p)).
+  generalize (is_nil (r_dst_ports r)) (in_ranges (r_dst_ports r) (pk_dport p)).
+  generalize (in_ranges (r_not_src_ports r) (pk_sport p)).
+  generalize (in_ranges (r_not_dst_ports r) (pk_dport p)).
+  intros. btauto.
+Qed.
